@@ -102,3 +102,40 @@ func Harness_C03_CanonicalInjective() {
 		}
 	}
 }
+
+// Harness_C03_CanonicalMemberOrder: suffix data whose anchor origin (member "origin" here: the engine unwinds the escape loop 64 times per call) is an object with two members named by arbitrary
+// scalar values (the whole Unicode range, incl. names beyond the BMP next to names in U+E000..U+FFFF, where code-point
+// order and UTF-16 order differ): the bytes that are hashed into the suffix are the RFC 8785 ones, whatever order the
+// request used.
+func Harness_C03_CanonicalMemberOrder() {
+	a, b := anyScalar("a"), anyScalar("b")
+	verifrt.Assume(a >= 0x20 && a != '"' && a != '\\' && b >= 0x20 && b != '"' && b != '\\' && a != b)
+	m1 := cat([]byte(`"`), []byte(string(a)), []byte(`":1`))
+	m2 := cat([]byte(`"`), []byte(string(b)), []byte(`":2`))
+	first, second := m1, m2
+	if !utf16Less(a, b) {
+		first, second = m2, m1
+	}
+	expected := cat([]byte(`{"origin":{`), first, []byte(`,`), second, []byte(`},"type":"t"}`))
+	var input []byte
+	if verifrt.Choose("request-order", 2) == 0 {
+		input = cat([]byte(`{"origin":{`), m1, []byte(`,`), m2, []byte(`},"type":"t"}`))
+	} else {
+		input = cat([]byte(`{"type":"t", "origin":{`), m2, []byte(`, `), m1, []byte(`}}`))
+	}
+	out, err := Transform(input)
+	verifrt.Reach("transformed")
+	verifrt.Assert(err == nil && same(out, expected), "suffix data is hashed in its RFC 8785 form: members ordered by UTF-16 code units, whatever the request's order")
+}
+
+// Harness_C04_JWKNonASCII: a key whose nonce holds an arbitrary scalar value (raw UTF-8 or any escape spelling): the
+// bytes hashed into commitment and reveal value carry that character in its RFC 8785 spelling (raw UTF-8 beyond the
+// short escapes), so keys differing in one character never share a commitment.
+func Harness_C04_JWKNonASCII() {
+	cp := anyScalar("c")
+	input := cat([]byte(`{"nonce":"`), spell("c", cp), []byte(`","kty":"EC","x":"a","crv":"P-256","y":"b"}`))
+	expected := cat([]byte(`{"crv":"P-256","kty":"EC","nonce":"`), canon(cp), []byte(`","x":"a","y":"b"}`))
+	out, err := Transform(input)
+	verifrt.Reach("transformed")
+	verifrt.Assert(err == nil && same(out, expected), "key members are hashed in their RFC 8785 spelling")
+}
